@@ -24,6 +24,8 @@ crpix, crpix_frac, crpix_exact (bool: fraction 0 or .5, i.e. all CRPIX arithmeti
 * ``rt/multi_tan/runs``               + ``error`` (exception in compute_global_pixelization / tile)
 * ``rt/multi_tan/terminates``         + ``timeout_s``
 * ``rt/multi_tan/tiles_equal_mosaic`` + ``tile [L,x,y], n_bad, first_bad [i,j], observed, expected, hint``
+* ``rt/multi_tan/undefined_never_overwrites_defined``  same keys; used instead of tiles_equal_mosaic when EVERY differing
+  pixel of the tile is defined in the mosaic and undefined (NaN / integer 0) in the tile
 * ``rt/multi_tan/tile_set``           + ``missing`` / ``stray`` (lists of relative paths)
 * ``rt/multi_tan/astrometry``         + ``field, observed, expected``
 * ``rt/multi_tan/no_lock_files``      + ``locks``
@@ -33,10 +35,15 @@ Bounds: quick: 26 general scenarios (18 random + 2 piece sets x 4 orders) + 18 "
 inside that tile, pieces B and C supply defined pixels there; all 6 input orders; set 1 with 1 and 2 workers,
 set 2 alternating; thorough: 5 sets x 6 orders x 3 worker counts), canvases up to ~700 px (L <= 2),
 1-4 pieces (random rectangles incl. 1-3 px slivers, regular grids with 0/3/17 px overlap, NaN
-borders and holes), workers {1,2,3}, fits and npy pyramids, f32/f64 data, both parities (and mixed,
+borders and holes), workers {1,2,3}, fits and npy pyramids, f32/f64 data and (2 of 7 general scenarios, one order set)
+I16/I32 data, both parities (and mixed,
 CD-style headers), rotations {0,30,-77,90,180,12.5} deg, CRPIX integer / half-integer / .25 / .3 /
 .37 fractions.  thorough: 162 scenarios (90 random + all 24 orders of 3 four-piece sets), canvases
 up to 1400 px (L <= 3), 1-6 pieces, workers {1,2,3,5}.
+Integer data (quick 18 / thorough 66 further scenarios, ``build_integer``): I16 / I32 FITS inputs cut from a mosaic
+whose pixels are all defined (non-zero) with both signs (undefined = 0, so about half of the defined values are
+smaller than the undefined value): two pieces overlapping in a 60..140 px band, each undefined along a border / in a
+hole inside the band, in BOTH input orders with 1 and 2 (thorough: 3) workers; 'covered tile' triples in all 6 orders.
 A collection that the code refuses as "not on uniform WCS grid" (mixed parities with CDELT-style
 headers: the library's own `_is_multi_tan` gate sends those to the multi-WCS path) is counted as a
 trivial case, not as a violation (the generator only mixes parities with CD-style headers).
@@ -63,28 +70,55 @@ KEYS = ("H", "W", "pieces", "borders", "holes", "parity", "header_style", "theta
 
 # ---- scenario -> input files (no toasty) --------------------------------------------------------
 
+INT_DTYPES = {"i16": np.int16, "i32": np.int32}
+
+
+def is_int(cfg):
+    return cfg["dtype"] in INT_DTYPES
+
+
+def undef_value(cfg):
+    """The undefined pixel value of the data type: NaN for floating point, 0 for integer data."""
+    return 0 if is_int(cfg) else np.nan
+
+
+def undef_mask(a):
+    a = np.asarray(a)
+    return np.isnan(a) if a.dtype.kind == "f" else (a == 0)
+
+
 def mosaic_data(cfg):
     rng = np.random.default_rng(cfg["data_seed"])
+    if is_int(cfg):
+        # every pixel of the mosaic is defined (non-zero); values of both signs (e.g. background-subtracted
+        # counts): about half of the defined pixels are negative, i.e. smaller than the undefined value 0
+        hi = 30000 if cfg["dtype"] == "i16" else 2 ** 30
+        mag = rng.integers(1, hi, (cfg["H"], cfg["W"]))
+        small = rng.random((cfg["H"], cfg["W"])) < 0.3
+        mag = np.where(small, rng.integers(1, 4, (cfg["H"], cfg["W"])), mag)
+        sign = np.where(rng.random((cfg["H"], cfg["W"])) < 0.5, -1, 1)
+        return (mag * sign).astype(INT_DTYPES[cfg["dtype"]])
     dt = np.float32 if cfg["dtype"] == "f32" else np.float64
     return (rng.random((cfg["H"], cfg["W"])) * 1000 - 200).astype(dt)
 
 
 def piece_arrays(cfg):
-    """Top-down arrays of the pieces (NaN borders / holes applied)."""
+    """Top-down arrays of the pieces (undefined borders / holes applied: NaN, or 0 for integer data)."""
     mos = mosaic_data(cfg)
+    nan = undef_value(cfg)
     out = []
     for k, (y0, x0, h, w) in enumerate(cfg["pieces"]):
         a = mos[y0:y0 + h, x0:x0 + w].copy()
         b = cfg["borders"][k]
         if b:
-            a[:b, :] = np.nan
-            a[-b:, :] = np.nan
-            a[:, :b] = np.nan
-            a[:, -b:] = np.nan
+            a[:b, :] = nan
+            a[-b:, :] = nan
+            a[:, :b] = nan
+            a[:, -b:] = nan
         hole = cfg["holes"][k]
         if hole:
             hy, hx, hh, hw = hole
-            a[hy:hy + hh, hx:hx + hw] = np.nan
+            a[hy:hy + hh, hx:hx + hw] = nan
         out.append(a)
     return out
 
@@ -149,12 +183,13 @@ def expected_tiles(cfg):
     uy1 = max(p[0] + p[2] for p in pcs)
     Wc, Hc = ux1 - ux0, uy1 - uy0
     arrs = piece_arrays(cfg)
-    canvas = np.full((Hc, Wc), np.nan, arrs[0].dtype)
+    nan = undef_value(cfg)
+    canvas = np.full((Hc, Wc), nan, arrs[0].dtype)
     for k in cfg["order"]:
         y0, x0, h, w = pcs[k]
         reg = canvas[y0 - uy0:y0 - uy0 + h, x0 - ux0:x0 - ux0 + w]
         a = arrs[k]
-        ok = ~np.isnan(a)
+        ok = ~undef_mask(a)
         reg[ok] = a[ok]
     P = 256
     L = 0
@@ -163,13 +198,13 @@ def expected_tiles(cfg):
         L += 1
     gx0 = (P - Wc) // 2
     gy0 = (P - Hc) // 2
-    big = np.full((P, P), np.nan, canvas.dtype)
+    big = np.full((P, P), nan, canvas.dtype)
     big[gy0:gy0 + Hc, gx0:gx0 + Wc] = canvas
     tiles = {}
     for ty in range(P // 256):
         for tx in range(P // 256):
             blk = big[ty * 256:(ty + 1) * 256, tx * 256:(tx + 1) * 256]
-            if not np.isnan(blk).all():
+            if not undef_mask(blk).all():
                 tiles[(tx, ty)] = blk
     return L, tiles, (Wc, Hc), (ux0, uy0)
 
@@ -257,7 +292,7 @@ def tile_case(cfg):
     for rel in sorted(set(present) - set(exp_paths)):
         # a stored tile that is completely undefined is tolerated (content-wise identical to "no tile")
         try:
-            if np.isnan(read_display(os.path.join(outdir, rel), ext)).all():
+            if undef_mask(read_display(os.path.join(outdir, rel), ext)).all():
                 continue
         except Exception:
             pass
@@ -274,20 +309,37 @@ def tile_case(cfg):
             problems.append({"obligation": "rt/multi_tan/tiles_equal_mosaic", "tile": [L, tx, ty], "n_bad": -1, "first_bad": None,
                              "observed": list(obs.shape), "expected": [256, 256], "hint": "shape"})
             continue
-        same = (obs == exp) | (np.isnan(obs) & np.isnan(exp))
+        if (obs.dtype.kind == "f") != (exp.dtype.kind == "f") or obs.dtype.itemsize != exp.dtype.itemsize:
+            problems.append({"obligation": "rt/multi_tan/tiles_equal_mosaic", "tile": [L, tx, ty], "n_bad": -1, "first_bad": None,
+                             "observed": str(obs.dtype), "expected": str(exp.dtype), "hint": "data type"})
+            continue
+
+        def eq(a, b):
+            if exp.dtype.kind != "f":
+                return a == b
+            return (a == b) | (np.isnan(a) & np.isnan(b))
+
+        same = eq(obs, exp)
         if not same.all():
             i, j = np.argwhere(~same)[0]
             hint = ""
             fl = obs[::-1]
-            if ((fl == exp) | (np.isnan(fl) & np.isnan(exp))).all():
+            lost = int((undef_mask(obs) & ~undef_mask(exp)).sum())
+            if eq(fl, exp).all():
                 hint = "rows reversed"
+            elif lost:
+                hint = "%d pixels defined in the mosaic are undefined in the tile" % lost
             else:
                 for dy, dx in ((0, 1), (0, -1), (1, 0), (-1, 0)):
                     sh = np.roll(np.roll(obs, dy, 0), dx, 1)
                     inner = (slice(2, -2), slice(2, -2))
-                    if ((sh[inner] == exp[inner]) | (np.isnan(sh[inner]) & np.isnan(exp[inner]))).all():
+                    if eq(sh[inner], exp[inner]).all():
                         hint = "shifted by (dy=%d, dx=%d)" % (-dy, -dx)
-            problems.append({"obligation": "rt/multi_tan/tiles_equal_mosaic", "tile": [L, tx, ty], "n_bad": int((~same).sum()),
+            n_bad = int((~same).sum())
+            # every differing pixel is defined in the mosaic and undefined in the tile: the clause "undefined input
+            # pixels never overwrite defined ones" (anything else: placement / values, the general clause)
+            obl = "rt/multi_tan/undefined_never_overwrites_defined" if lost == n_bad and hint != "rows reversed" else "rt/multi_tan/tiles_equal_mosaic"
+            problems.append({"obligation": obl, "tile": [L, tx, ty], "n_bad": n_bad,
                              "first_bad": [int(i), int(j)], "observed": float(obs[i, j]), "expected": float(exp[i, j]), "hint": hint})
     # astrometry
     try:
@@ -400,10 +452,11 @@ def build(ctx):
         hs = "cd" if pm == "mixed" or i % 2 == 0 else "cdelt"
         theta = [0.0, 0.0, 30.0, -77.0, 180.0, 90.0][i % 6]
         out.append(make_cfg(rng, H, W, pieces, borders, holes, pm, hs, theta, fracs[i % len(fracs)], pars[i % len(pars)],
-                            "fits" if i % 5 != 4 else "npy", "f32" if i % 7 != 6 else "f64"))
+                            "fits" if i % 5 != 4 else "npy", ["f32", "i16", "f32", "i32", "f32", "f32", "f64"][i % 7]))
     # order independence: the same piece sets in several / all orders
     nsets = 2 if not ctx.thorough else 3
-    for sidx in range(nsets):
+    set_dtypes = ["f32"] * nsets + (["i16"] if not ctx.thorough else ["i16", "i32"])     # the last set(s): integer data of both signs
+    for sidx in range(len(set_dtypes)):
         H, W = rng.randint(300, 600), rng.randint(300, 600)
         n = 3 if not ctx.thorough else 4
         pieces, borders, holes = gen_pieces(rng, H, W, n)
@@ -418,7 +471,7 @@ def build(ctx):
         borders = [min(b, min(p[2], p[3]) // 3) for b, p in zip(borders, pieces)]
         holes = [None] * n
         basecfg = make_cfg(rng, H, W, pieces, borders, holes, ["td", "bu", "mixed"][sidx % 3], "cd", [0.0, 12.5, 0.0][sidx % 3],
-                           0.5, 1, "fits", "f32", order=list(range(n)))
+                           0.5, 1, "fits", set_dtypes[sidx], order=list(range(n)))
         perms = list(itertools.permutations(range(n)))
         if not ctx.thorough:
             perms = [perms[0], perms[-1], perms[len(perms) // 2], perms[1]]
@@ -439,7 +492,7 @@ def study_frame(Hc, Wc):
     return L, P, (P - Wc) // 2, (P - Hc) // 2
 
 
-def covered_tile_set(rng, H, W, tx, ty, parity_mode, header_style, theta, frac, pio_format):
+def covered_tile_set(rng, H, W, tx, ty, parity_mode, header_style, theta, frac, pio_format, dtype="f32"):
     """Three overlapping pieces whose union box is the H x W canvas:
     A  covers tile (tx, ty) of the canvas' study tiling COMPLETELY (plus a margin of 0..30 px) and has a
        NaN border wider than the margin, i.e. undefined pixels INSIDE the fully covered tile, and a NaN hole there;
@@ -459,7 +512,76 @@ def covered_tile_set(rng, H, W, tx, ty, parity_mode, header_style, theta, frac, 
     pieces = [A, B, C]
     borders = [bA, 0, rng.choice([0, 3])]
     holes = [holeA, None, None]
-    return make_cfg(rng, H, W, pieces, borders, holes, parity_mode, header_style, theta, frac, 1, pio_format, "f32", order=[0, 1, 2])
+    return make_cfg(rng, H, W, pieces, borders, holes, parity_mode, header_style, theta, frac, 1, pio_format, dtype, order=[0, 1, 2])
+
+
+def overlap_pair_set(rng, H, W, axis, dtype, parity_mode, header_style, theta, frac, pio_format):
+    """Two pieces whose union box is the H x W canvas and which overlap in a band of 60..140 px across ``axis``
+    ('x': left / right pieces, 'y': upper / lower pieces).  Each piece is undefined along a border narrower than the
+    band (and the second one in a hole inside the band), so inside the band each piece has undefined pixels where
+    the other one has defined pixels: whatever the order, the piece tiled second brings undefined pixels over
+    pixels that are already defined."""
+    full = W if axis == "x" else H
+    band = rng.randint(60, 140)
+    lo = rng.randint(full // 3, full - full // 3 - band)
+    hi = lo + band
+    if axis == "x":
+        A, B = [0, 0, H, hi], [0, lo, H, W - lo]
+        hole = [rng.randint(0, H - 60), rng.randint(0, band - 30), rng.randint(20, 60), rng.randint(10, 30)]
+    else:
+        A, B = [0, 0, hi, W], [lo, 0, H - lo, W]
+        hole = [rng.randint(0, band - 30), rng.randint(0, W - 60), rng.randint(10, 30), rng.randint(20, 60)]
+    borders = [rng.randint(15, band // 2), rng.randint(15, band // 2)]
+    return make_cfg(rng, H, W, [A, B], borders, [None, hole], parity_mode, header_style, theta, frac, 1, pio_format, dtype, order=[0, 1])
+
+
+def undefined_over_defined_pixels(cfg):
+    """Number of (piece, pixel) pairs where the piece is undefined, the mosaic is defined and the value there is
+    negative -- for integer data: a defined value smaller than the undefined value 0 (oracle side only)."""
+    pcs = cfg["pieces"]
+    mos = mosaic_data(cfg)
+    arrs = piece_arrays(cfg)
+    defined = np.zeros(mos.shape, dtype=bool)
+    for (y0, x0, h, w), a in zip(pcs, arrs):
+        defined[y0:y0 + h, x0:x0 + w] |= ~undef_mask(a)
+    n = 0
+    for (y0, x0, h, w), a in zip(pcs, arrs):
+        n += int((undef_mask(a) & defined[y0:y0 + h, x0:x0 + w] & (mos[y0:y0 + h, x0:x0 + w] < 0)).sum())
+    return n
+
+
+def build_integer(ctx):
+    """Integer (I16 / I32) inputs with values of both signs (undefined = 0): overlapping pairs in both input orders
+    and 'covered tile' triples in all six orders, serial and parallel."""
+    rng = ctx.rng
+    out = []
+    if not ctx.thorough:
+        pairs = [(overlap_pair_set(rng, 500, 600, "x", "i16", "bu", "cd", 0.0, 0.5, "fits"), [1, 2]),
+                 (overlap_pair_set(rng, rng.randint(520, 700), rng.randint(300, 500), "y", "i32", "td", "cdelt", 0.0, 0.0, "fits"), [1, 2])]
+        triples = [(covered_tile_set(rng, 512, 512, 0, 0, "bu", "cd", 0.0, 0.5, "fits", dtype="i16"), [1, 2])]
+    else:
+        pairs = []
+        for k in range(8):
+            pairs.append((overlap_pair_set(rng, rng.randint(300, 900), rng.randint(300, 900), "xy"[k % 2], ["i16", "i32"][(k // 2) % 2],
+                                           ["bu", "td", "mixed"][k % 3], "cd" if k % 3 == 2 or k % 2 else "cdelt",
+                                           [0.0, 30.0, 0.0, -77.0][k % 4], [0.5, 0.0, 0.25][k % 3], "fits" if k % 4 != 3 else "npy"), [1, 2, 3]))
+        triples = [(covered_tile_set(rng, 512, 512, 0, 0, "bu", "cd", 0.0, 0.5, "fits", dtype="i16"), [1, 2, 3]),
+                   (covered_tile_set(rng, 520, 600, 1, 1, "td", "cdelt", 0.0, 0.0, "fits", dtype="i32"), [1, 2, 3]),
+                   (covered_tile_set(rng, 512, 512, 1, 1, "mixed", "cd", 12.5, 0.5, "npy", dtype="i16"), [1, 2])]
+    for base, pars in pairs:
+        for perm in ([0, 1], [1, 0]):
+            for par in pars:
+                c = dict(base)
+                c["order"] = list(perm)
+                c["parallel"] = par
+                out.append(c)
+    for base, pars in triples:
+        for pi, perm in enumerate(itertools.permutations(range(3))):
+            c = dict(base)
+            c["order"] = list(perm)
+            c["parallel"] = pars[pi % len(pars)]
+            out.append(c)
+    return out, len(pairs), len(triples)
 
 
 def covered_tile_nan_pixels(cfg):
@@ -472,7 +594,7 @@ def covered_tile_nan_pixels(cfg):
     arrs = piece_arrays(cfg)
     defined = np.zeros((Hc, Wc), dtype=bool)
     for (y0, x0, h, w), a in zip(pcs, arrs):
-        defined[y0 - uy0:y0 - uy0 + h, x0 - ux0:x0 - ux0 + w] |= ~np.isnan(a)
+        defined[y0 - uy0:y0 - uy0 + h, x0 - ux0:x0 - ux0 + w] |= ~undef_mask(a)
     n = 0
     for (y0, x0, h, w), a in zip(pcs, arrs):
         py, px = y0 - uy0 + gy0, x0 - ux0 + gx0          # piece in the square
@@ -481,7 +603,7 @@ def covered_tile_nan_pixels(cfg):
                 sy, sx = 256 * ty - py, 256 * tx - px    # tile inside the piece
                 if sy < 0 or sx < 0 or sy + 256 > h or sx + 256 > w:
                     continue
-                und = np.isnan(a[sy:sy + 256, sx:sx + 256])
+                und = undef_mask(a[sy:sy + 256, sx:sx + 256])
                 n += int((und & defined[sy + py - gy0:sy + py - gy0 + 256, sx + px - gx0:sx + px - gx0 + 256]).sum())
     return n
 
@@ -534,6 +656,9 @@ def judge(cfg, status, res, t):
     for p in res["problems"]:
         obl = p.pop("obligation")
         msg = {
+            "rt/multi_tan/undefined_never_overwrites_defined":
+                "tile %s: %s pixels that are defined in the mosaic (supplied by one input) are undefined in the tile; first %s observed %s expected %s"
+                % (p.get("tile"), p.get("n_bad"), p.get("first_bad"), p.get("observed"), p.get("expected")),
             "rt/multi_tan/runs": "tiling raised: %s" % p.get("error"),
             "rt/multi_tan/tiles_equal_mosaic": "tile %s differs from the mosaic tile in %s pixels; first %s observed %s expected %s %s"
                                                % (p.get("tile"), p.get("n_bad"), p.get("first_bad"), p.get("observed"), p.get("expected"), p.get("hint")),
@@ -555,6 +680,19 @@ def run(ctx):
     if min(feature) == 0:
         raise RuntimeError("checker error in rt/c09: a 'covered tile' scenario lacks undefined pixels of a covering piece over defined ones")
     ctx.monitor("covered_tile_undefined_over_defined_pixels", sum(feature))
+    ints, n_pairs, n_triples = build_integer(ctx)
+    scs += ints
+    ifeature = [undefined_over_defined_pixels(c) for c in ints]
+    if min(ifeature) == 0:
+        raise RuntimeError("checker error in rt/c09: an integer scenario lacks undefined pixels of one piece over negative defined ones")
+    ctx.monitor("integer_undefined_over_negative_defined_pixels", sum(ifeature))
+    ctx.bound("%d integer scenarios (I16 / I32 FITS inputs, every mosaic pixel defined = non-zero, about half of them negative, "
+              "30 %% of magnitude <= 3; undefined = 0): %d two-piece sets overlapping in a 60..140 px band with undefined borders "
+              "/ a hole inside the band, BOTH input orders x workers %s; %d 'covered tile' three-piece sets in all 6 orders; "
+              "%d..%d undefined-over-negative-defined pixels per scenario.  Also %s of the general scenarios and one "
+              "heavy-overlap order set%s use integer data"
+              % (len(ints), n_pairs, "{1,2}" if not ctx.thorough else "{1,2,3}", n_triples, min(ifeature), max(ifeature),
+                 "2/7", "" if not ctx.thorough else " each for I16 and I32"))
     ctx.bound("%d further scenarios 'a piece fully covers a 256x256 tile, is undefined along a border (and in a hole) INSIDE that tile, "
               "and another piece supplies defined pixels there' (%d..%d such pixels per scenario): %d three-piece sets (canvas exactly "
               "2x2 tiles; tile (1,1) of a level-2 tiling%s), ALL 6 input orders, workers %s"
@@ -564,10 +702,10 @@ def run(ctx):
     ctx.bound("%d general scenarios; canvases up to %d px; 1..%d pieces (random rectangles incl. 1-3 px slivers, regular grids with "
               "0/3/17 px overlap), NaN borders and holes; parities td / bu / mixed; header styles CDELT(+PC) and CD; rotations "
               "{0,30,-77,90,180,12.5} deg; CRPIX integer, half-integer and .25/.3/.37 fractions; workers %s; fits and npy "
-              "pyramids; f32 and f64 data" % (n_general, 700 if not ctx.thorough else 1400, 4 if not ctx.thorough else 6,
+              "pyramids; f32, f64, i16 and i32 data" % (n_general, 700 if not ctx.thorough else 1400, 4 if not ctx.thorough else 6,
                                               [1, 2, 3] if not ctx.thorough else [1, 2, 3, 5]))
-    ctx.bound("order independence: %s of piece sets with heavy overlaps" % ("4 orders of 2 three-piece sets" if not ctx.thorough
-                                                                             else "all 24 orders of 3 four-piece sets"))
+    ctx.bound("order independence: %s of piece sets with heavy overlaps" % ("4 orders of 3 three-piece sets (2 float, 1 I16)" if not ctx.thorough
+                                                                             else "all 24 orders of 5 four-piece sets (3 float, I16, I32)"))
     ctx.assume("astropy FITS codec / WCS parsing; wwt_data_formats.ImageSet.set_position_from_wcs defines the image-set fields")
 
     def work(item):
